@@ -13,31 +13,35 @@
 (* supplies the scale; Axis(c) is the axis the data of c implies.          *)
 (***************************************************************************)
 EXTENDS Integers, Sequences, FiniteSets, TLC
-CONSTANTS Ids, Cfgs, OwnScaleCfgs, ShareDefaultScale, MaxLen
+CONSTANTS Ids, Cfgs, OwnScaleCfgs, ShareDefaultScale, ReadsSharedDirection, MaxLen
 
 VARIABLES tl,        \* id -> [cfg, scale] ; scale is "default" or <<"own", id, n>>
           axis,      \* scale object -> the axis last written into it
           out,       \* id -> last exported document (abstract) or "none"
+          sharedDir, \* the "direction" entry of the module-level default engine-option dict: every instance that brings no
+                     \* engine options WRITES its direction there (the code does); ReadsSharedDirection says whether export
+                     \* reads it back (FALSE: the code reads its own option; TRUE: a realistic wrong variant)
           nobj, h
-vars == <<tl, axis, out, nobj, h>>
+vars == <<tl, axis, out, sharedDir, nobj, h>>
 None == [kind |-> "none"]
 DefaultObj == <<"default", 0>>
-Doc(c, ax) == [kind |-> "doc", cfg |-> c, axis |-> ax]
-Solo(c) == Doc(c, c)                             \* exported alone in a fresh process: its own axis
-Init == tl = [i \in Ids |-> None] /\ axis = [s \in {DefaultObj} |-> "unset"] /\ out = [i \in Ids |-> None] /\ nobj = 0 /\ h = <<>>
+Doc(c, ax, dir) == [kind |-> "doc", cfg |-> c, axis |-> ax, dir |-> dir]
+Solo(c) == Doc(c, c, c)                          \* exported alone in a fresh process: its own axis, its own direction
+Init == tl = [i \in Ids |-> None] /\ axis = [s \in {DefaultObj} |-> "unset"] /\ out = [i \in Ids |-> None] /\ sharedDir = "unset" /\ nobj = 0 /\ h = <<>>
 
 Construct(i, c) ==
     LET s == IF c \in OwnScaleCfgs \/ ~ShareDefaultScale THEN <<"obj", nobj + 1>> ELSE DefaultObj
     IN /\ tl' = [tl EXCEPT ![i] = [kind |-> "tl", cfg |-> c, scale |-> s]]
        /\ axis' = [x \in DOMAIN axis \cup {s} |-> IF x = s THEN c ELSE axis[x]]      \* InitAxis writes through the reference
        /\ out' = [out EXCEPT ![i] = None]
+       /\ sharedDir' = c                         \* options["labella"]["direction"] = direction, into the shared default dict
        /\ nobj' = nobj + 1
        /\ h' = Append(h, [a |-> "K", i |-> i, c |-> c])
 Export(i) ==
     /\ tl[i].kind = "tl"
-    /\ out' = [out EXCEPT ![i] = Doc(tl[i].cfg, axis[tl[i].scale])]
+    /\ out' = [out EXCEPT ![i] = Doc(tl[i].cfg, axis[tl[i].scale], IF ReadsSharedDirection THEN sharedDir ELSE tl[i].cfg)]
     /\ h' = Append(h, [a |-> "E", i |-> i, c |-> tl[i].cfg])
-    /\ UNCHANGED <<tl, axis, nobj>>
+    /\ UNCHANGED <<tl, axis, sharedDir, nobj>>
 Next == Len(h) < MaxLen /\ \E i \in Ids : (\E c \in Cfgs : Construct(i, c)) \/ Export(i)
 Spec == Init /\ [][Next]_vars
 
